@@ -193,6 +193,9 @@ def Frac2.ok (f : Frac2 ℝ) : Prop :=
 def Frac3.ok (f : Frac3 ℝ) : Prop :=
   0 ≤ f.f1 ∧ f.f1 ≤ 1 ∧ 0 ≤ f.f2 ∧ f.f2 ≤ 1 ∧ 0 ≤ f.f3 ∧ f.f3 ≤ 1 ∧ f.f1 + f.f2 + f.f3 ≤ 1
 
+/-- physical metal state: every fraction in `[0,1]`, tracked stages of one element sum to ≤ 1 -/
+def MetalOut.ok (o : MetalOut ℝ) : Prop := o.c.ok ∧ o.n.ok ∧ o.o.ok ∧ o.ne.ok ∧ o.s.ok
+
 theorem chain2_ok (c21 c32 : ℝ) (h1 : 0 ≤ c21) (h2 : 0 ≤ c32) : (chain2 c21 c32).ok := by
   have h3 : 0 ≤ c32 * c21 := mul_nonneg h2 h1
   have hS : 0 < 1 + c21 + c32 * c21 := by linarith
@@ -467,5 +470,148 @@ theorem tempMain_range {M : Type} (bal : ℝ → Bal ℝ M) (i : TempIn ℝ M) (
     · right
       refine ⟨⟨?_, min_le_left _ _⟩, fun _ => le_min htmin hlo⟩
       exact le_trans (min_le_left _ _) (le_min htmin hlo)
+
+/-! ## the state the temperature update leaves in the cell -/
+
+/-- `std::cbrt` at `ℝ` (only enters the recombination cooling term) -/
+noncomputable instance : HasCbrt ℝ :=
+  ⟨fun x => if 0 ≤ x then x ^ ((1:ℝ) / 3) else -((-x) ^ ((1:ℝ) / 3))⟩
+
+/-- a balance evaluation returns fractions in `[0,1]` and, unless hydrogen is entirely neutral,
+physical coolant fractions -/
+def BalOK (b : Bal ℝ (MetalOut ℝ)) : Prop :=
+  (0 ≤ b.h0 ∧ b.h0 ≤ 1) ∧ (0 ≤ b.he0 ∧ b.he0 ≤ 1) ∧ (b.h0 = 1 ∨ b.met.ok)
+
+/-- loop invariant: fractions in `[0,1]`; the stored coolant fractions are physical unless the
+hydrogen fraction has one of the values for which `calculate_temperature` resets them -/
+def StateOK (s : TState ℝ (MetalOut ℝ)) : Prop :=
+  (0 ≤ s.h0 ∧ s.h0 ≤ 1) ∧ (0 ≤ s.he0 ∧ s.he0 ≤ 1) ∧ (s.h0 = 1 ∨ s.h0 ≤ 1e-10 ∨ s.met.ok)
+
+theorem tempStep_ok (bal : ℝ → Bal ℝ (MetalOut ℝ)) (hb : ∀ T, BalOK (bal T)) (tmin : ℝ)
+    (s : TState ℝ (MetalOut ℝ)) : StateOK (tempStep bal tmin s) := by
+  obtain ⟨b1, b2, b3⟩ := hb s.T0
+  unfold tempStep
+  simp only []
+  generalize (newT _ _ _ _ _ : ℝ) = Tn
+  unfold clampHigh clampLow StateOK
+  by_cases h1 : Tn < tmin
+  · simp only [h1, if_true]
+    have : ¬ ((1.0e10:ℝ) < (500.0:ℝ)) := by norm_num
+    simp only [this, if_false]
+    norm_num
+  · simp only [h1, if_false]
+    by_cases h2 : (1.0e10:ℝ) < Tn
+    · simp only [h2, if_true]; norm_num
+    · simp only [h2, if_false]
+      exact ⟨b1, b2, b3.elim Or.inl (fun h => Or.inr (Or.inr h))⟩
+
+theorem tempLoop_ok (bal : ℝ → Bal ℝ (MetalOut ℝ)) (hb : ∀ T, BalOK (bal T)) (eps tmin : ℝ) :
+    ∀ (n k : Nat) (s : TState ℝ (MetalOut ℝ)), StateOK s →
+      StateOK (tempLoop bal eps tmin n k s).1 := by
+  intro n
+  induction n with
+  | zero => intro k s h; simpa [tempLoop] using h
+  | succ n ih =>
+    intro k s h
+    unfold tempLoop
+    split_ifs with hc
+    · exact ih (k + 1) _ (tempStep_ok bal hb tmin s)
+    · exact h
+
+/-! ## the whole H/He loop under the checked premise -/
+
+/-- one loop body (the proof of `hHe_iterate_range_partial`) -/
+theorem hHeIterate_range (c : HHeCoef ℝ) (niter : Nat) (s : HHeState ℝ)
+    (hche : 0 ≤ c.che) (hA : 0 ≤ c.aHe) (hh : 0 < s.h0 ∧ s.h0 < 1) (hhe : s.he0 ≤ 1)
+    (hch : 0 ≤ chIter c s) :
+    (0 ≤ (hHeIterate c niter s).h0 ∧ (hHeIterate c niter s).h0 ≤ 1) ∧
+    (0 ≤ (hHeIterate c niter s).he0 ∧ (hHeIterate c niter s).he0 ≤ 1) := by
+  have he := heNew_range c.che c.aHe s.h0 hche hA hh.2.le
+  have hh' := hNew_range (chIter c s) c.aHe (heNew c.che c.aHe s.h0) hch hA he.2
+  have hold : 0 ≤ he0oldOf s.he0 ∧ he0oldOf s.he0 ≤ 1 := by
+    unfold he0oldOf
+    split_ifs with h
+    · norm_num at h; exact ⟨h.le, hhe⟩
+    · norm_num
+  unfold hHeIterate
+  simp only []
+  split_ifs with hn
+  · simp only []
+    norm_num
+    refine ⟨⟨?_, ?_⟩, ⟨?_, ?_⟩⟩ <;> linarith [hh.1, hh.2, he.1, he.2, hh'.1, hh'.2, hold.1, hold.2]
+  · exact ⟨hh', he⟩
+
+theorem bodyOff_false (c : HHeCoef ℝ) (s : HHeState ℝ) (h : bodyOff c s = false) :
+    (0 < s.h0 ∧ s.h0 < 1) ∧ 0 ≤ chIter c s := by
+  unfold bodyOff at h
+  simp only [Bool.not_eq_false', decide_eq_true_eq] at h
+  norm_num at h
+  exact ⟨⟨h.1, h.2.1⟩, h.2.2⟩
+
+/-- the premise flag is sticky -/
+theorem hHeLoop_offDom_true (c : HHeCoef ℝ) :
+    ∀ (fuel niter : Nat) (s : HHeState ℝ), (hHeLoop c fuel niter true s).offDom = true := by
+  intro fuel
+  induction fuel with
+  | zero => intro niter s; unfold hHeLoop; split_ifs <;> rfl
+  | succ f ih =>
+    intro niter s
+    unfold hHeLoop
+    split_ifs
+    · simpa using ih (niter + 1) (hHeIterate c (niter + 1) s)
+    · rfl
+
+/-- if no executed body left the premise, every iterate — hence the result, converged or
+not — lies in `[0,1]²` -/
+theorem hHeLoop_range (c : HHeCoef ℝ) (hche : 0 ≤ c.che) (hA : 0 ≤ c.aHe) :
+    ∀ (fuel niter : Nat) (cn : Bool) (s : HHeState ℝ),
+      (0 ≤ s.h0 ∧ s.h0 ≤ 1) → (0 ≤ s.he0 ∧ s.he0 ≤ 1) →
+      (hHeLoop c fuel niter cn s).offDom = false →
+      (0 ≤ (hHeLoop c fuel niter cn s).h0 ∧ (hHeLoop c fuel niter cn s).h0 ≤ 1) ∧
+      (0 ≤ (hHeLoop c fuel niter cn s).he0 ∧ (hHeLoop c fuel niter cn s).he0 ≤ 1) := by
+  intro fuel
+  induction fuel with
+  | zero =>
+    intro niter cn s h1 h2 _
+    unfold hHeLoop
+    split_ifs <;> exact ⟨h1, h2⟩
+  | succ f ih =>
+    intro niter cn s h1 h2 hoff
+    unfold hHeLoop at hoff ⊢
+    split_ifs at hoff ⊢ with hc
+    · have hb : (cn || bodyOff c s) = false := by
+        cases hcb : (cn || bodyOff c s)
+        · rfl
+        · rw [hcb, hHeLoop_offDom_true] at hoff; exact absurd hoff (by simp)
+      rw [Bool.or_eq_false_iff] at hb
+      obtain ⟨p1, p2⟩ := bodyOff_false c s hb.2
+      have hr := hHeIterate_range c (niter + 1) s hche hA p1 h2.2 p2
+      exact ih (niter + 1) _ _ hr.1 hr.2 hoff
+    · exact ⟨h1, h2⟩
+
+theorem hHeInit_range (c : HHeCoef ℝ) (hch1 : 0 ≤ c.ch1) :
+    (0 ≤ (hHeInit c).h0 ∧ (hHeInit c).h0 ≤ 1) ∧ (0 ≤ (hHeInit c).he0 ∧ (hHeInit c).he0 ≤ 1) := by
+  have e1 : (hHeInit c).h0 = 0.9 * (0.99 * (1 - Real.exp (-0.5 / c.ch1))) := by
+    simp only [hHeInit, ArithFns.exp]; norm_num
+  have e2 : (hHeInit c).he0 = 0 := by simp only [hHeInit]; norm_num
+  rw [e1, e2]
+  have hx : (-0.5:ℝ) / c.ch1 ≤ 0 := by
+    apply div_nonpos_of_nonpos_of_nonneg (by norm_num) hch1
+  have h1 : Real.exp (-0.5 / c.ch1) ≤ 1 := Real.exp_le_one_iff.mpr hx
+  have h0 : 0 < Real.exp (-0.5 / c.ch1) := Real.exp_pos _
+  refine ⟨⟨by nlinarith, by nlinarith⟩, by norm_num⟩
+
+theorem hHeCoef_nonneg (alphaH alphaHe jH jHe nH aHe T : ℝ) (h1 : 0 ≤ alphaH) (h2 : 0 ≤ alphaHe)
+    (h3 : 0 ≤ nH) (hj : 0 ≤ jH) :
+    0 ≤ (hHeCoef alphaH alphaHe jH jHe nH aHe T).ch1 ∧
+    0 ≤ (hHeCoef alphaH alphaHe jH jHe nH aHe T).che ∧
+    (hHeCoef alphaH alphaHe jH jHe nH aHe T).aHe = aHe := by
+  refine ⟨?_, ?_, rfl⟩
+  · show 0 ≤ alphaH * nH / jH
+    exact div_nonneg (mul_nonneg h1 h3) hj
+  · show 0 ≤ (if (0.0:ℝ) < jHe then alphaHe * nH / jHe else 0.0)
+    split_ifs with h
+    · norm_num at h; exact div_nonneg (mul_nonneg h2 h3) h.le
+    · norm_num
 
 end CMacVerif.IonBalance
